@@ -108,6 +108,17 @@ func (c *Ctx) handlerOrigin(v ssa.Value, gate *types.Named, depth int, seen map[
 		if n, ok := x.Type().(*types.Named); ok && gate != nil && n.Obj() == gate.Obj() {
 			return "wrapped"
 		}
+		// a gate value converted on to another func type (e.g. handed to ServeMux.HandleFunc, whose parameter is
+		// HandlerFunc) loses the gate's ServeDIAM method: what is registered is the function inside the gate
+		if inner, ok := x.X.(*ssa.ChangeType); ok && gate != nil {
+			if n, ok := inner.Type().(*types.Named); ok && n.Obj() == gate.Obj() {
+				o := c.handlerOrigin(inner.X, gate, depth+1, seen)
+				if strings.HasPrefix(o, "application") {
+					return "application: the gate is converted away again (" + x.Type().String() + "), its ServeDIAM is not the one registered → " + o
+				}
+				return o
+			}
+		}
 		return c.handlerOrigin(x.X, gate, depth+1, seen)
 	case *ssa.Phi:
 		res := "wrapped"
